@@ -348,7 +348,7 @@ theorem mem_of_mem_dropLast' {α : Type} {x : α} : ∀ {l : List α}, x ∈ l.d
     | nil => simp
     | cons b r =>
       intro h
-      simp only [List.dropLast_cons₂, List.mem_cons] at h
+      simp only [List.dropLast_cons_cons, List.mem_cons] at h
       rcases h with h | h
       · exact List.mem_cons.mpr (Or.inl h)
       · exact List.mem_cons_of_mem _ (ih h)
@@ -426,14 +426,13 @@ def resultOf (blk : Nat → List Line) (P : List Nat) : Except Err Result :=
 theorem restartsDone_nil : restartsDone [] = .ok [] := rfl
 
 theorem iterationsCall_spec {T : Tables} {S : Sim} {scn : Nat → VarsAndFiles} {blk : Nat → List Line}
-    (hS : Stable T S scn blk) (skip : Bool) (fs : FS) (P : List Nat) (hinv : Inv scn blk fs P) :
-    let rs := todo S skip (P.map fun (n : Nat) => (n : Int))
+    (hS : Stable T S scn blk) (skip : Bool) (fs : FS) (P : List Nat) (hinv : Inv scn blk fs P)
+    (rs : List Nat) (hrs : todo S skip (P.map fun (n : Nat) => (n : Int)) = rs) :
     (rs = [] ∧ P = [] → (iterationsCall T S skip fs).2 = .error .importError ∧
-        Inv scn blk (iterationsCall T S skip fs).1 []) ∧
+        Inv scn blk (iterationsCall T S skip fs).1 [] ∧ (iterationsCall T S skip fs).1.itfile = some []) ∧
     (¬ (rs = [] ∧ P = []) → Inv scn blk (iterationsCall T S skip fs).1 (P ++ rs) ∧
         (iterationsCall T S skip fs).1.itfile = some (printLines (blocks blk (P ++ rs))) ∧
         (iterationsCall T S skip fs).2 = resultOf blk (P ++ rs)) := by
-  intro rs
   let B := blocks blk P
   have hBok := blocks_ok hS P
   have hBst := blocks_started hS P
@@ -455,6 +454,7 @@ theorem iterationsCall_spec {T : Tables} {S : Sim} {scn : Nat → VarsAndFiles} 
     · simp [h, hread, B]
   have hP : ((P.map fun (n : Nat) => (n : Int)) == []) = (P == []) := by cases P <;> rfl
   have hfound := todo_found S skip (P.map fun (n : Nat) => (n : Int))
+  rw [hrs] at hfound
   have hloop := loop_spec hS rs hfound
     { fs := { fs with itfile := some (printLines B) }, st := (catOf B, none), stale := none, err := none }
     (printLines B) rfl rfl hinv.cache
@@ -467,7 +467,7 @@ theorem iterationsCall_spec {T : Tables} {S : Sim} {scn : Nat → VarsAndFiles} 
         | .ok ov => (final.fs, .ok { cat := final.st.1, overall := some ov })
         | .error e => (final.fs, .error e)) := by
     unfold iterationsCall
-    simp only [hold, hnl, hcat, hdone, hP, l1]
+    simp only [hold, hnl, hcat, hdone, hP, hrs, l1]
     rfl
   have hcatN : (rs.foldl (loopStep T S)
       { fs := { fs with itfile := some (printLines B) }, st := (catOf B, none), stale := none, err := none }).st.1 =
@@ -477,15 +477,15 @@ theorem iterationsCall_spec {T : Tables} {S : Sim} {scn : Nat → VarsAndFiles} 
   constructor
   · rintro ⟨h1, h2⟩
     have : (rs == [] && P == []) = true := by simp [h1, h2]
-    rw [hunf]
-    simp only [this, if_true]
-    refine ⟨rfl, ⟨Or.inr ?_, hinv.cache⟩⟩
-    simp [B, h2]
+    rw [hunf, if_pos this]
+    exact ⟨rfl, ⟨Or.inr (by simp [B, h2]), hinv.cache⟩, by simp [B, h2, blocks, printLines]⟩
   · intro hne
-    have : (rs == [] && P == []) = false := by
-      cases hr : rs <;> cases hp : P <;> simp_all
-    rw [hunf]
-    simp only [this, Bool.false_eq_true, if_false]
+    have : ¬ ((rs == [] && P == []) = true) := by
+      intro h
+      simp only [Bool.and_eq_true, beq_iff_eq] at h
+      exact hne h
+    rw [hunf, if_neg this]
+    simp only []
     have hfile : (rs.foldl (loopStep T S)
         { fs := { fs with itfile := some (printLines B) }, st := (catOf B, none), stale := none, err := none }).fs.itfile =
         some (printLines (blocks blk (P ++ rs))) := by
@@ -498,5 +498,250 @@ theorem iterationsCall_spec {T : Tables} {S : Sim} {scn : Nat → VarsAndFiles} 
     · unfold resultOf
       rw [← hcatN]
       split <;> rename_i h <;> simp [h]
+
+def emptyFS : FS := { itfile := none, caches := [] }
+
+theorem inv_empty (scn : Nat → VarsAndFiles) (blk : Nat → List Line) : Inv scn blk emptyFS [] :=
+  ⟨Or.inl ⟨rfl, rfl⟩, fun r cd h => by simp [emptyFS, dget] at h⟩
+
+def castL (P : List Nat) : List Int := P.map fun (n : Nat) => (n : Int)
+
+/-- the restarts catalogued, in order, after a sequence of calls (bookkeeping on numbers only) -/
+def processedAfter : List (Sim × Bool) → List Nat → List Nat
+  | [], P => P
+  | c :: cs, P => processedAfter cs (P ++ todo c.1 c.2 (castL P))
+
+/-- file-system state after a sequence of `iterations()` calls -/
+def runCalls (T : Tables) : List (Sim × Bool) → FS → FS
+  | [], fs => fs
+  | c :: cs, fs => runCalls T cs (iterationsCall T c.1 c.2 fs).1
+
+theorem call_inv {T : Tables} {S : Sim} {scn : Nat → VarsAndFiles} {blk : Nat → List Line}
+    (hS : Stable T S scn blk) (skip : Bool) (fs : FS) (P : List Nat) (hinv : Inv scn blk fs P) :
+    Inv scn blk (iterationsCall T S skip fs).1 (P ++ todo S skip (castL P)) := by
+  have h := iterationsCall_spec hS skip fs P hinv (todo S skip (castL P)) rfl
+  by_cases hc : todo S skip (castL P) = [] ∧ P = []
+  · have := (h.1 hc).2.1
+    rw [hc.1, hc.2]; exact this
+  · exact (h.2 hc).1
+
+theorem run_inv {T : Tables} {scn : Nat → VarsAndFiles} {blk : Nat → List Line} :
+    ∀ (cs : List (Sim × Bool)), (∀ c ∈ cs, Stable T c.1 scn blk) → ∀ (fs : FS) (P : List Nat),
+      Inv scn blk fs P → Inv scn blk (runCalls T cs fs) (processedAfter cs P) := by
+  intro cs
+  induction cs with
+  | nil => intro _ fs P h; exact h
+  | cons c cs ih =>
+    intro hst fs P h
+    exact ih (fun c' hc' => hst c' (List.mem_cons_of_mem _ hc')) _ _
+      (call_inv (hst c (List.mem_cons_self ..)) c.2 fs P h)
+
+theorem processedAfter_append (cs : List (Sim × Bool)) (c : Sim × Bool) (P : List Nat) :
+    processedAfter (cs ++ [c]) P =
+      processedAfter cs P ++ todo c.1 c.2 (castL (processedAfter cs P)) := by
+  induction cs generalizing P with
+  | nil => rfl
+  | cons a cs ih => simp [processedAfter, ih]
+
+/-- **T3** -/
+theorem incremental_eq_fresh_lemma (T : Tables) (scn : Nat → VarsAndFiles) (blk : Nat → List Line)
+    (cs0 : List (Sim × Bool)) (Sn : Sim) (kn : Bool) (S' : Sim)
+    (hst : ∀ c ∈ cs0, Stable T c.1 scn blk) (hSn : Stable T Sn scn blk) (hS' : Stable T S' scn blk)
+    (hP : todo S' false [] = processedAfter (cs0 ++ [(Sn, kn)]) [])
+    (hne : processedAfter (cs0 ++ [(Sn, kn)]) [] ≠ []) :
+    (iterationsCall T Sn kn (runCalls T cs0 emptyFS)).1.itfile = (iterationsCall T S' false emptyFS).1.itfile ∧
+    (iterationsCall T Sn kn (runCalls T cs0 emptyFS)).2 = (iterationsCall T S' false emptyFS).2 := by
+  have hinv0 := run_inv cs0 hst emptyFS [] (inv_empty scn blk)
+  have hPA := processedAfter_append cs0 (Sn, kn) []
+  have h1 := iterationsCall_spec hSn kn _ _ hinv0 (todo Sn kn (castL (processedAfter cs0 []))) rfl
+  have hc1 : ¬ (todo Sn kn (castL (processedAfter cs0 [])) = [] ∧ processedAfter cs0 [] = []) := by
+    rintro ⟨a, b⟩
+    apply hne; rw [hPA]; rw [b] at a; simp [a, b]
+  obtain ⟨_, f1, r1⟩ := h1.2 hc1
+  have h2 := iterationsCall_spec hS' false emptyFS [] (inv_empty scn blk) (todo S' false []) rfl
+  have hc2 : ¬ (todo S' false [] = [] ∧ ([] : List Nat) = []) := by
+    rintro ⟨a, _⟩; apply hne; rw [← hP, a]
+  obtain ⟨_, f2, r2⟩ := h2.2 hc2
+  simp only [List.nil_append] at f2 r2
+  rw [f1, r1, f2, r2, hP, hPA]
+  exact ⟨rfl, rfl⟩
+
+def allR (S : Sim) (skip : Bool) : List Nat :=
+  if skip then (sortNat (S.restarts.map (·.nbr))).dropLast else sortNat (S.restarts.map (·.nbr))
+
+theorem todo_eq (S : Sim) (skip : Bool) (done : List Int) :
+    todo S skip done = (allR S skip).filter (fun (r : Nat) => !done.contains (r : Int)) := by
+  cases skip <;> rfl
+
+theorem todo_after (S : Sim) (skip : Bool) (P : List Nat) :
+    todo S skip (castL (P ++ todo S skip (castL P))) = [] := by
+  rw [todo_eq S skip (castL (P ++ todo S skip (castL P))), List.filter_eq_nil_iff]
+  intro x hx
+  have hcast : castL (P ++ todo S skip (castL P)) = castL P ++ castL (todo S skip (castL P)) := by
+    simp [castL]
+  rw [hcast]
+  have key : (x : Int) ∈ castL P ∨ (x : Int) ∈ castL (todo S skip (castL P)) := by
+    by_cases h : (x : Int) ∈ castL P
+    · exact Or.inl h
+    · right
+      have hx' : x ∈ todo S skip (castL P) := by
+        rw [todo_eq, List.mem_filter]; exact ⟨hx, by simpa using h⟩
+      exact List.mem_map.mpr ⟨x, hx', rfl⟩
+  simp [key]
+
+/-- repeating a call changes nothing -/
+theorem iterations_idempotent_lemma {T : Tables} {S : Sim} {scn : Nat → VarsAndFiles} {blk : Nat → List Line}
+    (hS : Stable T S scn blk) (skip : Bool) (fs : FS) (P : List Nat) (hinv : Inv scn blk fs P) :
+    (iterationsCall T S skip (iterationsCall T S skip fs).1).1.itfile = (iterationsCall T S skip fs).1.itfile ∧
+    (iterationsCall T S skip (iterationsCall T S skip fs).1).2 = (iterationsCall T S skip fs).2 := by
+  have h1 := iterationsCall_spec hS skip fs P hinv (todo S skip (castL P)) rfl
+  have hinv1 := call_inv hS skip fs P hinv
+  have h2 := iterationsCall_spec hS skip _ _ hinv1 [] (todo_after S skip P)
+  by_cases hc : todo S skip (castL P) = [] ∧ P = []
+  · obtain ⟨e1, _, f1⟩ := h1.1 hc
+    have hP1 : P ++ todo S skip (castL P) = [] := by rw [hc.1, hc.2]; rfl
+    obtain ⟨e2, _, f2⟩ := h2.1 ⟨rfl, hP1⟩
+    exact ⟨by rw [f1, f2], by rw [e1, e2]⟩
+  · obtain ⟨_, f1, r1⟩ := h1.2 hc
+    have hc2 : ¬ (([] : List Nat) = [] ∧ P ++ todo S skip (castL P) = []) := by
+      rintro ⟨_, b⟩
+      apply hc
+      cases P with
+      | nil => exact ⟨by simpa using b, rfl⟩
+      | cons x xs => simp at b
+    obtain ⟨_, f2, r2⟩ := h2.2 hc2
+    simp only [List.append_nil] at f2 r2
+    rw [f1, f2, r1, r2]
+    exact ⟨rfl, rfl⟩
+
+/-! ## a computable criterion for `Stable` -/
+
+def lineOKb : Line → Bool
+  | .vars l => !l.isEmpty && l.all nameOK
+  | .noData p => noMarker (printLine (.noData p)) && !p.contains '\n' && !p.contains '\r'
+  | .reading p => noMarker (printLine (.reading p)) && !p.contains '\n' && !p.contains '\r'
+  | _ => true
+
+theorem lineOK_of_b (l : Line) (h : lineOKb l = true) : LineOK l := by
+  cases l with
+  | vars l =>
+    simp only [lineOKb, Bool.and_eq_true, Bool.not_eq_true', List.all_eq_true] at h
+    exact ⟨by intro e; subst e; simp at h, h.2⟩
+  | noData p =>
+    simp only [lineOKb, Bool.and_eq_true, Bool.not_eq_true'] at h
+    exact ⟨h.1.1, by simpa using h.1.2, by simpa using h.2⟩
+  | reading p =>
+    simp only [lineOKb, Bool.and_eq_true, Bool.not_eq_true'] at h
+    exact ⟨h.1.1, by simpa using h.1.2, by simpa using h.2⟩
+  | restart n => trivial
+  | its a b => trivial
+  | arange rl a b d => trivial
+  | single rl x => trivial
+  | chk l => trivial
+
+instance (vf : VarsAndFiles) : Decidable (keysOK vf) := by unfold keysOK; infer_instance
+
+/-- the lines written for restart `r` when nothing is left over from a previous loop iteration -/
+def blkOf (T : Tables) (S : Sim) (r : Nat) : List Line :=
+  match S.restarts.find? (fun d => d.nbr == r) with
+  | some dir => (processRestart T S dir (scanOf T S r) none).lines
+  | none => [.restart r]
+
+theorem dataLines_stale_indep (T : Tables) (S : Sim) (dir : RestartDir) (vf : VarsAndFiles)
+    (h : (dataLines T S dir vf none).err = none) (stale : Option (Bool × Str)) :
+    (dataLines T S dir vf stale).lines = (dataLines T S dir vf none).lines ∧
+    (dataLines T S dir vf stale).err = none := by
+  unfold dataLines at h ⊢
+  simp only [] at h ⊢
+  split
+  · exact ⟨rfl, rfl⟩
+  · rename_i hv
+    simp only [hv, if_false] at h
+    cases hc : candidates vf with
+    | nil =>
+      -- no candidate and nothing left over: the code raises NameError
+      simp [foundFile, hc, dataCore] at h
+    | cons k ks =>
+      have e : foundFile vf stale = foundFile vf none := by simp [foundFile, hc]
+      rw [e]
+      cases hf : foundFile vf none with
+      | error e' => simp [hf] at h
+      | ok fnd => simp only [hf] at h ⊢; exact ⟨trivial, h⟩
+
+theorem finishLines_err_none {nbr : Nat} {dl : List Line} {derr : Option Err} {cp : Except Err (List Nat)}
+    (h : (finishLines nbr dl derr cp).2 = none) : derr = none := by
+  cases derr with
+  | none => rfl
+  | some e => simp [finishLines] at h
+
+theorem processRestart_stale_indep (T : Tables) (S : Sim) (dir : RestartDir) (vf : VarsAndFiles)
+    (h : (processRestart T S dir vf none).err = none) (stale : Option (Bool × Str)) :
+    (processRestart T S dir vf stale).lines = (processRestart T S dir vf none).lines ∧
+    (processRestart T S dir vf stale).err = none := by
+  have hd : (dataLines T S dir vf none).err = none := finishLines_err_none h
+  obtain ⟨d1, d2⟩ := dataLines_stale_indep T S dir vf hd stale
+  unfold processRestart at h ⊢
+  simp only [d1, d2, hd] at h ⊢
+  exact ⟨trivial, h⟩
+
+theorem processRestart_head (T : Tables) (S : Sim) (dir : RestartDir) (vf : VarsAndFiles)
+    (stale : Option (Bool × Str)) :
+    ∃ rest, (processRestart T S dir vf stale).lines = .restart dir.nbr :: rest := by
+  unfold processRestart finishLines
+  simp only []
+  split
+  · exact ⟨_, rfl⟩
+  · split
+    · exact ⟨_, rfl⟩
+    · split
+      · exact ⟨_, rfl⟩
+      · split <;> exact ⟨_, rfl⟩
+
+/-- `Stable` from finitely many computable checks on the restarts of `S` -/
+theorem stable_of_check (T : Tables) (S : Sim)
+    (hnd : ∀ d ∈ S.restarts, S.restarts.find? (fun x => x.nbr == d.nbr) = some d)
+    (hk : ∀ d ∈ S.restarts, keysOK (scanOf T S d.nbr))
+    (hp : ∀ d ∈ S.restarts, (processRestart T S d (scanOf T S d.nbr) none).err = none)
+    (hl : ∀ d ∈ S.restarts, (blkOf T S d.nbr).all lineOKb = true)
+    (h1 : ∀ d ∈ S.restarts, restartNbrs (blkOf T S d.nbr) = [(d.nbr : Int)]) :
+    Stable T S (scanOf T S) (blkOf T S) := by
+  have hfind : ∀ r dir, S.restarts.find? (fun d => d.nbr == r) = some dir → dir ∈ S.restarts ∧ dir.nbr = r := by
+    intro r dir h
+    exact ⟨List.mem_of_find?_eq_some h, by simpa using List.find?_some h⟩
+  have hnone : ∀ r, S.restarts.find? (fun d => d.nbr == r) = none →
+      scanOf T S r = [] ∧ blkOf T S r = [.restart r] := by
+    intro r h
+    constructor
+    · simp [scanOf, filesOf, h, scanContent, globH5]
+    · simp [blkOf, h]
+  refine ⟨fun _ _ _ => rfl, ?_, ?_, ?_, ?_, ?_⟩
+  · intro r
+    cases h : S.restarts.find? (fun d => d.nbr == r) with
+    | none => rw [(hnone r h).1]; exact ⟨by simp, by simp⟩
+    | some dir => obtain ⟨hm, rfl⟩ := hfind r dir h; exact hk dir hm
+  · intro r dir h stale
+    obtain ⟨hm, rfl⟩ := hfind r dir h
+    have := processRestart_stale_indep T S dir _ (hp dir hm) stale
+    simp only [blkOf, h]
+    exact this
+  · intro r
+    cases h : S.restarts.find? (fun d => d.nbr == r) with
+    | none => exact ⟨[], (hnone r h).2⟩
+    | some dir =>
+      obtain ⟨hm, rfl⟩ := hfind r dir h
+      simp only [blkOf, h]
+      exact processRestart_head T S dir _ none
+  · intro r l hlm
+    cases h : S.restarts.find? (fun d => d.nbr == r) with
+    | none =>
+      rw [(hnone r h).2] at hlm
+      simp at hlm; subst hlm; trivial
+    | some dir =>
+      obtain ⟨hm, rfl⟩ := hfind r dir h
+      exact lineOK_of_b l (List.all_eq_true.mp (hl dir hm) l hlm)
+  · intro r
+    cases h : S.restarts.find? (fun d => d.nbr == r) with
+    | none => rw [(hnone r h).2]; rfl
+    | some dir => obtain ⟨hm, rfl⟩ := hfind r dir h; exact h1 dir hm
 
 end AurelVerif.CatalogLemmas
